@@ -254,6 +254,12 @@ func (r *Raft) compactLogs(snapIdx uint64) error {
 	defer metrics.MeasureSince([]string{"raft", "compactLogs"}, time.Now())
 
 	lastLogIdx, _ := r.getLastLog()
+	// The cached last index can run ahead of the store: a user restore sets it
+	// to an index it burned, which holds no entry. TrailingLogs counts entries
+	// that exist, so measure from what the store really holds.
+	if storeLast, err := r.logs.LastIndex(); err == nil && storeLast < lastLogIdx {
+		lastLogIdx = storeLast
+	}
 	trailingLogs := r.config().TrailingLogs
 
 	return r.compactLogsWithTrailing(snapIdx, lastLogIdx, trailingLogs)
